@@ -4,10 +4,18 @@
 
    WHAT IS MODELLED
 
-   A record is  [fmt, testing, name, sev, caller, width, minw, msg, attrs]  where
+   A record is  [fmt, testing, name, sev, caller, width, minw, msg, attrs, lc]  where
      msg    is a sequence of character CLASSES (Classes below; "LF" separates lines),
+     lc     the level colour configuration in force for the record's severity:
+              [set, fg, bg]  set = slog.SetLevelColors(sev, fg, bg) was called (FALSE: the
+              built-in table / the colours of the registration), fg in {"none", "fg"} (NoColor /
+              a foreground colour), bg in {"none", "bg", "attr"} (NoColor / a background colour /
+              a text attribute such as underline, bold, dim).  The table is process-wide state;
+              EncoderHist carries it as st.col and changes it by the event SetColors.
      attrs  is a sequence of nodes  [k, kc, kind, vc, v, sub]:
-              k    key identity (an integer; the concrete key of id k sorts like k; 0 = "")
+              k    key identity (an integer; the concrete key of id k sorts like k; 0 = "";
+                   ReservedIds = the field names the encoders use themselves: -1 caller,
+                   96 level, 97 logger, 98 msg, 99 time - every other id k is "k<k>...")
               kc   class of the special character put into the key ("plain" = none)
               kind value kind (Kinds below; "group" has members in sub)
               vc   class of the special character inside a textual value
@@ -41,8 +49,14 @@
            break).  ResetAtBreak(stream, n) = the state is the reset state at the first n
            breaks and at the end.  IdealStream(rec) is the layout of the property with the
            colours switched on and off; invariant ColourOK checks it for every tree, every
-           colour class of severity and 1..3 message lines.  CRStream is the witness for
-           the library's CR deviation (expected to fail).
+           level colour configuration (LevelColours: {no foreground, a foreground} x {nothing,
+           a background colour, a text attribute}) and 1..4 message lines.  CRStream is the
+           witness for the library's CR deviation, FgOnlyCloseStream the one for a discipline
+           that writes the closing reset only when a foreground was opened (both expected to
+           fail).  Ign is an escape sequence with a malformed parameter list (ESC [ - 1 m): a
+           terminal ignores it, it changes no state.  The verdict on an observation is
+           ResetAtBreak of the observed stream whatever lc is: lc widens the cell space (and
+           names findings), it adds no clause.
    Part D  the verdict on an observation (used by EncoderTrace): JsonDiag (C04) / LogfmtDiag
            (C05) / ColorDiag (C06) return the set of violated clauses of the property for one
            record and the harness's projection of the bytes the library wrote for it;
@@ -180,6 +194,15 @@ Kinds == {"string", "bool", "int", "uint", "float", "complex", "time", "duration
           "fallback", "textm", "group"}
 TextKinds == {"string", "error", "stringer", "bytes", "strs", "fallback", "textm"}   \* carry a class vc
 
+\* the field names the encoders write themselves, as key identities (integer order = byte order of
+\* the concrete keys: "caller" < "k01" .. "k90" < "level" < "logger" < "msg" < "time"; the order of
+\* caller and the empty key 0 is never observed: the empty key is legal in JSON only, where member
+\* order is not part of C04)
+ReservedIds == {-1, 96, 97, 98, 99}
+TimeKey == 99
+ResName(k) == CASE k = -1 -> "caller" [] k = 96 -> "level" [] k = 97 -> "logger" [] k = 98 -> "msg"
+                [] k = 99 -> "time" [] OTHER -> "none"
+
 Max(a, b) == IF a >= b THEN a ELSE b
 RECURSIVE Asc(_)
 Asc(S) == IF S = {} THEN <<>> ELSE LET m == CHOOSE x \in S : \A y \in S : x <= y IN <<m>> \o Asc(S \ {m})
@@ -220,6 +243,11 @@ HasNested(s)    == \E i \in DOMAIN s : s[i].kind = "group" /\ HasGroup(s[i].sub)
 HasDup(s)       == Cardinality(KeysOf(s)) < Len(s)
 AfterGroup(s)   == LET m == Merge(s) IN \E i, j \in DOMAIN m : i < j /\ m[i].kind = "group"
 HasEmptyKey(s)  == 0 \in KeysOf(s)
+HasTopReserved(s) == KeysOf(s) \cap ReservedIds # {}          \* s = the top-level attribute list
+RECURSIVE MemberReserved(_, _)                                  \* {<<name, kind>>} of group members with a reserved key
+MemberReserved(s, d) ==
+    UNION { (IF d > 0 /\ s[i].k \in ReservedIds THEN {<<ResName(s[i].k), s[i].kind>>} ELSE {})
+            \cup (IF s[i].kind = "group" THEN MemberReserved(s[i].sub, d + 1) ELSE {}) : i \in DOMAIN s }
 TreeFeatures(s) ==
     (IF AnyLevel(s, AfterGroup) THEN {"after-group"} ELSE IF HasGroup(s) THEN {"group"} ELSE {})
     \cup (IF AnyLevel(s, HasEmptyGroup) THEN {"empty-group"} ELSE {})
@@ -268,11 +296,24 @@ PairsComplete   == \* every scalar that survives the merge is printed exactly on
                        Scalars(s) == IF s = <<>> THEN 0
                                      ELSE (IF Head(s).kind = "group" THEN Scalars(Head(s).sub) ELSE 1) + Scalars(Tail(s))
                    IN Len(p) = Scalars(Merge(Tree))
+\* what a key is called does not matter: renaming the keys by an order-preserving map (here: the
+\* reserved names to ordinary ids just below / above the kNN range) commutes with Merge and Flat,
+\* at every depth - a reserved name is special nowhere in the expectation
+Ren(k) == IF k = -1 THEN 0 - 7 ELSE IF k \in ReservedIds THEN k + 100 ELSE k
+RECURSIVE RenTree(_)
+RenTree(s) == [i \in DOMAIN s |-> [s[i] EXCEPT !.k = Ren(@), !.sub = RenTree(@)]]
+RenPairs(p) == [i \in DOMAIN p |-> [p[i] EXCEPT !.path = [j \in DOMAIN @ |-> Ren(@[j])]]]
+KeyNamesDoNotMatter == /\ Merge(RenTree(Tree)) = RenTree(Merge(Tree))
+                       /\ Flat(Merge(RenTree(Tree)), <<>>) = RenPairs(Flat(Merge(Tree), <<>>))
 
 ----------------------------------------------------------------------------
 (* Part C: colour hygiene *)
 
 Brk == -1                                   \* a line break in the stream
+Ign == -2                                   \* an escape sequence ESC [ ... m whose parameter list is malformed
+                                            \* (ESC [ - 1 m): terminals ignore it - Apply leaves the state alone
+                                            \* (occurs in OBSERVED streams only: the library writes it for a level
+                                            \* without foreground colour; the statement does not forbid it)
 ResetState == [fg |-> 0, bg |-> 0, at |-> {}]
 Apply(st, n) ==
     IF n = 0 THEN ResetState
@@ -298,8 +339,17 @@ ResetAtBreak(s, n) ==
     IN /\ b[Len(b)] = ResetState
        /\ \A i \in 1..(Len(b) - 1) : i <= n => b[i] = ResetState
 
-\* colour classes of a severity: fg only, fg+bg attribute, nothing registered
-SevColours == {<<36>>, <<33, 2>>, <<97, 5>>, <<>>}
+\* level colour configurations (record field lc; SetLevelColors(level, fg, bg), RegisterLevel options,
+\* the built-in table): {no foreground, a foreground} x {nothing, a background colour, a text attribute}
+LcFgs == {"none", "fg"}
+LcBgs == {"none", "bg", "attr"}
+NoLC == [set |-> FALSE, fg |-> "none", bg |-> "none"]
+LevelColours == {NoLC} \cup {[set |-> TRUE, fg |-> f, bg |-> b] : f \in LcFgs, b \in LcBgs}
+\* the SGR parameters a configuration switches on (one representative code per class)
+Codes(f, b) == (IF f = "fg" THEN <<36>> ELSE <<>>)
+               \o (IF b = "bg" THEN <<44>> ELSE IF b = "attr" THEN <<4>> ELSE <<>>)
+SevColours == {Codes(f, b) : f \in LcFgs, b \in LcBgs} \cup {<<33, 2>>, <<97, 5>>}
+HasFg(cs) == \E i \in DOMAIN cs : cs[i] \in (30..37) \cup (90..97)
 RECURSIVE Cat(_)
 Cat(ss) == IF ss = <<>> THEN <<>> ELSE Head(ss) \o Cat(Tail(ss))
 On(cs) == cs                                  \* switching the colours of the class on
@@ -320,9 +370,19 @@ IdealStream(cs, hasName, pairs, caller, nlines) ==
     \o <<Brk>>
 \* the library's treatment of CR LF in a message: the line break lands inside the coloured first line
 CRStream(cs) == <<32, 0>> \o On(cs) \o <<0>> \o On(cs) \o <<Brk, 0>> \o <<Brk>>
-ColourOK == \A cs \in SevColours, hn \in BOOLEAN, ca \in BOOLEAN, nl \in 1..3 :
+ColourOK == \A cs \in SevColours, hn \in BOOLEAN, ca \in BOOLEAN, nl \in 1..4 :
                 ResetAtBreak(IdealStream(cs, hn, Flat(Merge(Tree), <<>>), ca, nl), nl)
 CRIsClean == \A cs \in SevColours \ {<<>>} : ResetAtBreak(CRStream(cs), 2)      \* witness: must fail
+\* a discipline that writes the closing reset of a message line only when it opened a FOREGROUND:
+\* the first line is rescued by the reset that ends the attribute
+\* section, the continuation lines are not.  Witness: must fail - and fails only where the cell
+\* space has a configuration without foreground but with a background / attribute, and >= 2 lines
+FgOnlyClose(cs) == cs \o (IF HasFg(cs) THEN <<0>> ELSE <<>>)
+FgOnlyCloseStream(cs, nlines) ==
+    <<32, 0>> \o cs \o <<0>> \o FgOnlyClose(cs) \o <<90, 0>> \o cs \o <<0>>
+    \o Cat([i \in 1..(nlines - 1) |-> <<Brk>> \o FgOnlyClose(cs)]) \o <<Brk>>
+FgOnlyCloseIsClean == \A cs \in SevColours, nl \in 1..4 : ResetAtBreak(FgOnlyCloseStream(cs, nl), nl)
+FgOnlyCloseBad == {<<cs, nl>> \in SevColours \X (1..4) : ~ResetAtBreak(FgOnlyCloseStream(cs, nl), nl)}
 
 ----------------------------------------------------------------------------
 (* Part D: verdict on one observed record *)
@@ -379,12 +439,15 @@ PairsMatchSet(exp, got, accept(_)) ==          \* each expected pair exactly onc
             /\ got[j].rep \in accept(exp[i].kind)
             /\ got[j].kx
             /\ (exp[i].vc = "invalid" \/ Won(exp[i], got[j]))
+\* the one allowance for a reserved name (colored only - C04 / C05 exclude top-level reserved keys
+\* from their domain): a TOP-LEVEL attribute `time` holding a time.Time may be rendered in any way
+TopTimeWaived(p) == Len(p.path) = 1 /\ p.path[1] = TimeKey /\ p.kind = "time"
 PairsMatchSeq(exp, got, accept(_)) ==          \* ... and in the stated (ascending) order
     /\ Len(exp) = Len(got)
     /\ \A i \in DOMAIN exp : /\ got[i].path = exp[i].path
                              /\ got[i].rep \in accept(exp[i].kind)
                              /\ got[i].kx
-                             /\ (exp[i].vc = "invalid" \/ Won(exp[i], got[i]))
+                             /\ (exp[i].vc = "invalid" \/ Won(exp[i], got[i]) \/ TopTimeWaived(exp[i]))
 
 HasKind(s, kind) == AnyLevel(s, LAMBDA q : \E i \in DOMAIN q : q[i].kind = kind)
 MsgAllValid(rec) == \A i \in DOMAIN rec.msg : ValidUTF8(rec.msg[i])
@@ -479,6 +542,7 @@ KeysLegal(fmt, s) == \A i \in DOMAIN s :
     /\ (s[i].kind = "group" => KeysLegal(fmt, s[i].sub))
 InDomain(rec) ==
     /\ KeysLegal(rec.fmt, rec.attrs)
+    /\ rec.fmt # "color" => ~HasTopReserved(rec.attrs)       \* "all keys other than the reserved field names"
     /\ rec.fmt # "color" => ~HasKind(rec.attrs, "textm")      \* user marshallers are outside C04/C05
     /\ rec.fmt = "color" => "ESC" \notin {rec.msg[i] : i \in DOMAIN rec.msg}
 =============================================================================
